@@ -42,7 +42,9 @@ type Checker[K any] struct {
 // Try judges one case; it returns true if the case passed.
 func (ck *Checker[K]) Try(k K) bool {
 	ck.C.Evaluations.Add(1)
+	ck.C.Quiesce.RLock()
 	f := vlib.Guard(func() *vlib.Failure { return ck.Judge(k) })
+	ck.C.Quiesce.RUnlock()
 	if f == nil {
 		return true
 	}
